@@ -113,38 +113,38 @@ PythJ(ch) == LET idx == SetToSeq(ch[2]) IN [i \in 1..Len(idx) |-> RowList(ch[1])
 Prefs(m) == {[i \in 1..m |-> 1], [i \in 1..m |-> i], [i \in 1..m |-> <<3, 1, 2>>[i]]}
             \cup {[i \in 1..m |-> IF i = k THEN 1 ELSE 0] : k \in 1..m}
 
-IMTLG(J, n) ==
-    LET G == Gram(J)  d == [i \in 1..Len(J) |-> NormOf(J[i])]
-        a == MatVec(Adj(G), d)  S == ISum(a)  dt == IDet(G)
+\* everything that depends on J only, computed once per instance
+Core(J) == LET G == Gram(J) IN
+           [G |-> G, d |-> [i \in 1..Len(J) |-> NormOf(J[i])], adj |-> Adj(G), det |-> IDet(G)]
+
+IMTLG(J, n, co) ==
+    LET a == MatVec(co.adj, co.d)  S == ISum(a)
     IN  [defined |-> S # 0,                                  \* sum(G^-1 d) = 0: no normalised solution
          vsum_negative |-> (S < 0),                          \* det > 0, so sign(sum v) = sign(S)
          a |-> a, S |-> S,
          w |-> IF S = 0 THEN <<>> ELSE [i \in 1..Len(J) |-> Q2(a[i], S)],
-         A |-> IF S = 0 THEN <<>> ELSE [j \in 1..n |-> Q2(VecMat(a, J, n)[j], S)],
+         A |-> IF S = 0 THEN <<>> ELSE LET aJ == VecMat(a, J, n) IN [j \in 1..n |-> Q2(aJ[j], S)],
          w1 |-> IF S = 0 THEN <<0, 1>> ELSE Q2(ISum([i \in 1..Len(J) |-> Abs(a[i])]), Abs(S))]   \* |w|_1
 
-ConFIG(J, n, u) ==
-    LET G == Gram(J)  d == [i \in 1..Len(J) |-> NormOf(J[i])]
-        du == [i \in 1..Len(J) |-> d[i] * u[i]]
-        a == MatVec(Adj(G), du)  P == ISum(du)  Q == IDot(a, du)
-    IN  [u |-> u, a |-> a, P |-> P, Q |-> Q,
-         A |-> [j \in 1..n |-> Q2(P * VecMat(a, J, n)[j], Q)]]
+ConFIG(J, n, u, co) ==
+    LET du == [i \in 1..Len(J) |-> co.d[i] * u[i]]
+        a == MatVec(co.adj, du)  P == ISum(du)  Q == IDot(a, du)  aJ == VecMat(a, J, n)
+    IN  [u |-> u, a |-> a, P |-> P, Q |-> Q, A |-> [j \in 1..n |-> Q2(P * aJ[j], Q)]]
 
-\* the defining equalities of the statement, exactly
-IMTLGDefining(J) ==
-    LET G == Gram(J)  d == [i \in 1..Len(J) |-> NormOf(J[i])]  r == IMTLG(J, Len(J[1]))
-        Ga == MatVec(G, r.a)              \* G w = Ga / S: projections (G w)_i / d_i
+\* the defining equalities of the statement, exactly, on the exported records
+IMTLGDefining(J, co, r) ==
+    LET Ga == MatVec(co.G, r.a)              \* G w = Ga / S: projections (G w)_i / d_i
     IN  r.defined =>
-          /\ ISum(r.a) = r.S                                             \* weights sum to one
-          /\ \A i \in 1..Len(J) : Ga[i] * d[1] = Ga[1] * d[i]            \* equal projections
-ConFIGDefining(J, u) ==
-    LET G == Gram(J)  d == [i \in 1..Len(J) |-> NormOf(J[i])]  r == ConFIG(J, Len(J[1]), u)
-        N == MatVec(G, r.a)  dt == IDet(G)     \* g_i . A = (P / Q) N_i
-    IN  /\ \A i \in 1..Len(J) : N[i] = dt * d[i] * u[i]       \* cosines (P dt / Q) u_i / |A|: proportional to u
-        /\ r.Q > 0 /\ r.P > 0                                   \* positive whenever u_i > 0; A is not zero
-        \* |A|^2 = (P/Q)^2 a^T G a = (P/Q)^2 dt Q  and  sum_i g_i . A = (P/Q) dt P: equal, i.e.
+          /\ ISum(r.a) = r.S                                              \* weights a / S sum to one
+          /\ \A i \in 1..Len(J) : Ga[i] * co.d[1] = Ga[1] * co.d[i]            \* equal projections
+          /\ \A i \in 1..Len(J) : Ga[i] = co.det * co.d[i]                     \* (a = adj(G) d)
+ConFIGDefining(J, co, r) ==
+    LET N == MatVec(co.G, r.a)               \* g_i . A = (P / Q) N_i
+    IN  /\ \A i \in 1..Len(J) : N[i] = co.det * co.d[i] * r.u[i]   \* cosines (P det / Q) u_i / |A|: proportional to u
+        /\ r.Q > 0 /\ r.P > 0                                      \* positive whenever u_i > 0; A is not zero
+        \* |A|^2 = (P/Q)^2 a^T G a = (P/Q)^2 det Q  and  sum_i g_i . A = (P/Q) det P, hence
         \* |A| = sum_i g_i . A / |A|  (length = sum of the projections)
-        /\ IDot(r.a, [i \in 1..Len(J) |-> d[i] * u[i]]) = r.Q
+        /\ ISum(N) = co.det * r.P
 
 -----------------------------------------------------------------------------
 (* Family "aligned": J = S Q                                               *)
@@ -219,24 +219,22 @@ PickZero == /\ fam = "zero" /\ inst = <<"none">>
 Next == PickPyth \/ PickAligned \/ PickZero
 Spec == Init /\ [][Next]_vars
 
-\* ---- properties of the specification functions, checked on every instance
-PythDefining ==
-    inst[1] = "pyth" =>
-        LET J == inst[2]  G == Gram(J) IN
-        IDet(G) > 0 =>
-           /\ IMTLGDefining(J)
-           /\ \A u \in Prefs(Len(J)) : ConFIGDefining(J, u)
-AlignedOK == inst[1] = "aligned" => AlignedDefining(inst[2], inst[3], inst[4])
-
-\* ---- export
+\* ---- export (the exported record is what the defining equalities are checked on)
 PythScenario(J) ==
-    LET G == Gram(J)  m == Len(J)  n == Len(J[1])
-    IN  [fam |-> "pyth", J |-> J, m |-> m, n |-> n, d |-> [i \in 1..m |-> NormOf(J[i])],
-         det |-> IDet(G), tr |-> TraceM(G),
-         admit |-> AdmitGram(G), kb |-> IF IDet(G) > 0 THEN CondBound(G) ELSE 0,
-         admitU |-> AdmitUnit(G), kbu |-> IF IDet(G) > 0 THEN CondBoundU(G) ELSE 0,
-         imtlg |-> IF IDet(G) > 0 THEN IMTLG(J, n) ELSE [defined |-> FALSE],
-         config |-> IF IDet(G) > 0 THEN SetToSeqAny({ConFIG(J, n, u) : u \in Prefs(m)}) ELSE <<>>]
+    LET co == Core(J)  G == co.G  m == Len(J)  n == Len(J[1])  ok == co.det > 0
+    IN  [fam |-> "pyth", J |-> J, m |-> m, n |-> n, d |-> co.d,
+         det |-> co.det, tr |-> TraceM(G),
+         admit |-> AdmitGram(G), kb |-> IF ok THEN CondBound(G) ELSE 0,
+         admitU |-> AdmitUnit(G), kbu |-> IF ok THEN CondBoundU(G) ELSE 0,
+         imtlg |-> IF ok THEN IMTLG(J, n, co) ELSE [defined |-> FALSE],
+         config |-> IF ok THEN SetToSeqAny({ConFIG(J, n, u, co) : u \in Prefs(m)}) ELSE <<>>]
+
+\* ---- properties of the specification functions, checked on every instance
+PythChecked(J, sc) ==
+    LET co == Core(J) IN
+    co.det > 0 => /\ IMTLGDefining(J, co, sc.imtlg)
+                  /\ \A k \in 1..Len(sc.config) : ConFIGDefining(J, co, sc.config[k])
+AlignedOK == inst[1] = "aligned" => AlignedDefining(inst[2], inst[3], inst[4])
 
 AlignedPrefs(m) == {<<[i \in 1..m |-> 1], m>>, <<[i \in 1..m |-> i], 1>>}
                    \cup {<<[i \in 1..m |-> IF i = k THEN 1 ELSE 0], 1>> : k \in 1..m}
@@ -245,7 +243,8 @@ AlignedScenario(S, q, sg) ==
      cases |-> SetToSeqAny({Aligned(S, q, sg, p[1], p[2]) : p \in AlignedPrefs(Len(S))})]
 
 Export ==
-    CASE inst[1] = "pyth"    -> PrintT(<<"SCN", ToJson(PythScenario(inst[2]))>>)
+    CASE inst[1] = "pyth"    -> LET sc == PythScenario(inst[2]) IN
+                                  PythChecked(inst[2], sc) /\ PrintT(<<"SCN", ToJson(sc)>>)
       [] inst[1] = "aligned" -> PrintT(<<"SCN", ToJson(AlignedScenario(inst[2], inst[3], inst[4]))>>)
       [] inst[1] = "zero"    -> PrintT(<<"SCN", ToJson([fam |-> "zero", m |-> inst[2], n |-> inst[3]])>>)
       [] OTHER -> TRUE
